@@ -210,13 +210,20 @@ func genUpload(t *rapid.T, withGaps bool) upScript {
 					// one or several retransmission rounds: each resends the missing ranges in any order, some of them
 					// in two pieces, some are lost again and wait for the next round; every round ends with a 0x1212
 					pending := runs
-					for round := 0; len(pending) > 0 && round < 4; round++ {
+					// drip: every round brings only one of the missing ranges, the others are asked for again and again
+					// (the report of the n-th round must still name exactly what is missing, however many rounds there were)
+					drip := len(runs) >= 3 && rapid.IntRange(0, 3).Draw(t, "drip") == 0
+					maxRounds := 4
+					if drip {
+						maxRounds = 9
+					}
+					for round := 0; len(pending) > 0 && round < maxRounds; round++ {
 						if len(pending) > 1 {
 							pending = rapid.Permutation(pending).Draw(t, "resend_order")
 						}
 						var later []chunkRef
 						for k, r := range pending {
-							if k > 0 && round < 3 && rapid.IntRange(0, 3).Draw(t, "lost_again") == 0 {
+							if k > 0 && round < maxRounds-1 && (drip || rapid.IntRange(0, 3).Draw(t, "lost_again") == 0) {
 								later = append(later, r)
 								continue
 							}
